@@ -76,6 +76,28 @@ class P(framework.Prop):
                 if "to_array(&map" in e or e.startswith("[&map"):
                     continue
                 out.append("search %s %s" % (wire.s(e), d))
+        # builtins on hostile data: numerals a float parser accepts but JSON does not, overflowing numerals, and long arrays
+        # of nearly equal / duplicate / huge numbers (sorting routines check their comparator on slices of more than 20 elements)
+        for t in ["inf", "-inf", "+inf", "Inf", "INF", "infinity", "-Infinity", "nan", "NaN", "-nan", "1e999", "-1e999", "1e-999", "1E400", "0x10", "1_000",
+                  " 1", "1 ", "+1", ".5", "5.", "1e", "1e+", "-", "--1", "", "1.0.0", "01", "-0", "1e308", "1.7976931348623159e308", "١٢٣", "1\u0000",
+                  "9223372036854775808", "-9223372036854775809", "18446744073709551616", "true", "null", "[1]", "\"1\""]:
+            for e in ["to_number(@)", "to_number(to_string(@))", "[to_number(@)] | sum(@)", "to_number(@) > `0`"]:
+                out.append("search %s %s" % (wire.s(e), wire.val(t)))
+        base = [1.0 + k * 2.220446049250313e-16 for k in range(0, 40)]
+        arrays = [base[:24], base[:33][::-1], [base[(7 * k) % 29] for k in range(29)], [0.1 * k for k in range(25)] + [0.30000000000000004, 0.3],
+                  [2**53 + k for k in range(24)], [9007199254740993, 9007199254740992.0] * 12, [1, 1.0] * 11 + [1.0000000000000002], [-0.0, 0.0] * 12,
+                  [5e-324 * k for k in range(23)], [1e308, -1e308] * 11 + [1.7976931348623157e308], ["a" * (k % 3) + "b" for k in range(25)],
+                  [k % 3 for k in range(41)], [[k % 2] for k in range(22)], [{"k": base[k % 24]} for k in range(26)], [{"k": "x" * (k % 4)} for k in range(23)]]
+        for _ in range(6 if tier == "quick" else 200):
+            n = rng.randint(21, 60)
+            arrays.append([1.0 + rng.randint(0, 6) * 2.220446049250313e-16 for _ in range(n)])
+            arrays.append([rng.choice([2**53, 2**53 + 1, 2**53 + 2, float(2**53), 2**63, 2**64 - 1, -2**63]) for _ in range(n)])
+            arrays.append([{"k": 1.0 + rng.randint(0, 5) * 2.220446049250313e-16, "i": i} for i in range(n)])
+        for arr in arrays:
+            d = wire.val(arr)
+            for e in ["sort(@)", "sort_by(@, &@)", "sort_by(@, &k)", "max(@)", "min(@)", "max_by(@, &@)", "min_by(@, &k)", "sum(@)", "avg(@)", "reverse(sort(@))",
+                      "sort(@)[0] == min(@)", "[?@ == `1`]", "contains(@, `1`)", "join(',', @)", "map(&abs(@), @)", "map(&ceil(@), @)", "map(&floor(@), @)"]:
+                out.append("search %s %s" % (wire.s(e), d))
         return out
 
     def nontrivial(self, case, mobs):
